@@ -46,6 +46,7 @@ SPEC = {
         'AITB.C12Check.violationOK_sound', 'AITB.C12Check.neededOK_sound', 'AITB.C12Check.pairwiseOK_sound',
         'AITB.C12Check.weak_duality_sound', 'AITB.C12Check.interp_sound',
         'AITB.C12Check.envelopeClause_ok_sound', 'AITB.C12Check.envelopeClause_bad_sound', 'AITB.C12Check.envelopeClause_consistent',
+        'AITB.C12Check.strictNeededOK_sound', 'AITB.C12Check.neededClause_ok_sound', 'AITB.C12Check.neededClause_bad_sound', 'AITB.C12Check.neededClause_consistent',
         # interpolation models
         'AITB.Interp.sawLoop_minCF_nonpos', 'AITB.Interp.sawtooth_le_corner_bound', 'AITB.Interp.sawLoop_spec',
         'AITB.Interp.basicV_le_corner', 'AITB.Interp.sawtooth_repaired_total', 'AITB.Interp.sawtooth_repaired_weights',
@@ -62,7 +63,7 @@ SPEC = {
     'timeout': {'quick': 420, 'thorough': 2400},
     'case_timeout': 60,
     'classify_crash': classify_crash,
-    'rule': '18 fixed witness/regression cases, then 2500 (quick) / 12000 (thorough) seeded random cases: vector sets (dimension 1..6, up to 16 / 40 vectors; '
+    'rule': '22 fixed witness/regression cases (18-21: exact corner ties in dimension 3-4, every input order), then 2500 (quick) / 12000 (thorough) seeded random cases: vector sets (dimension 1..6, up to 16 / 40 vectors; '
             'duplicates, shifts straddling both tolerances, corner-only and face-tied vectors, midpoints, magnitudes 2^22) through dominates, findBestAt*, '
             'extractDominated, extractDominatedIncremental (raw and pre-pruned old part) and Pruner; point surfaces (dimension 1..5, 0..6/10 points, zero '
             'coordinates, coordinates of size 2^-21 / 2^-19, query equal to a stored point, corner queries, unhelpful points, magnitudes 2^20) through '
